@@ -229,6 +229,11 @@ var c03Hostile = func() []dDur {
 	for _, ns := range []int64{-1, -s, 1, 999999999, s + 500000000, 1500000, 65535 * s, 65536 * s, 65535*s + 999999999, infNS - 1, infNS, infNS + 1, infNS + s, 2000000 * 3600 * s, 9000 * s, 9000*s - 1, 3600 * s, 3600*s - 1, 0, 4 * s, 1800 * s} {
 		out = append(out, dDur{Kind: "value", NS: ns, Text: time.Duration(ns).String()})
 	}
+	// spellings that are not documented durations at all: should the parser come to accept one, what it makes of it still
+	// has to fit the wire
+	for _, t := range []string{"99999d", "200000d", "49711d", "2w", "9999w", "1y", "150y", "50%", "1%", "100%"} {
+		out = append(out, dDur{Kind: "malformed", Text: t})
+	}
 	return append(out, dDur{Kind: "infinite"}, dDur{Kind: "empty"}, dDur{Kind: "auto"})
 }()
 
